@@ -60,6 +60,7 @@ type opRec struct {
 type result struct {
 	model, obs, judge string
 	inconclusive      string
+	faultStats        string
 }
 
 type sys struct {
@@ -300,6 +301,74 @@ func runSeq(r *rng.R, maxOps int) result {
 	return render(s, recs, elected, true)
 }
 
+// runFaults: a sequential operation list against an API server that, following a generated script, rejects the status
+// writes of some resources persistently ('P'), fails their Get ('G'), has lost them ('N'), or rejects the first n
+// attempts ('T'). The real Updater retries with its real exponential backoff (4 steps, 200 ms .. ~2 s for a persistent
+// failure), so the cases mostly sleep; Run executes them in parallel.
+// Output: F bad=<tags scripted P/G/N> ops=.. (model input), O outs=.. (successful writes), J bad=.. elected=.. ops=.. writes=..
+func runFaults(r *rng.R, maxOps int) result {
+	s := newSys(false, 0)
+	s.rec.faults = map[int]fault{}
+	nUpd := r.Range(1, maxOps)
+	enablePos := r.Intn(nUpd + 1)
+	if r.Chance(1, 10) {
+		enablePos = -1
+	}
+	nGroups := r.Range(1, 3)
+	next := 1
+	var recs []*opRec
+	var elected int64
+	var bad []int
+	persistent, budget := 0, 2 // at most two persistently failing resources per case (each costs ~1.5-2 s of backoff)
+	do := func(sp opSpec) {
+		rec := &opRec{opSpec: sp}
+		recs = append(recs, rec)
+		s.exec(len(recs)-1, rec)
+	}
+	for i := 0; i <= nUpd; i++ {
+		if i == enablePos {
+			elected = s.clock.Add(1)
+			if s.run.NeedLeaderElection() {
+				do(opSpec{enable: true})
+			}
+		}
+		if i < nUpd {
+			n := r.Range(1, 4)
+			if r.Chance(1, 8) {
+				n = 0
+			}
+			tags := make([]int, n)
+			for k := range tags {
+				tags[k] = next
+				next++
+			}
+			// the script: mostly a request that is NOT the last of its list
+			for k, t := range tags {
+				last := k == len(tags)-1
+				switch x := r.Intn(100); {
+				case x < 14 && !last && persistent < budget, x < 3 && persistent < budget:
+					s.rec.faults[t] = fault{kind: rng.Pick(r, []byte{'P', 'P', 'G'})}
+					bad = append(bad, t)
+					persistent++
+				case x < 22:
+					s.rec.faults[t] = fault{kind: 'N'}
+					bad = append(bad, t)
+				case x < 34:
+					s.rec.faults[t] = fault{kind: 'T', n: r.Range(1, 2)}
+				}
+			}
+			do(opSpec{g: r.Intn(nGroups), tags: tags})
+		}
+	}
+	res := render(s, recs, elected, true)
+	b := natList(bad)
+	res.model = "bad=" + b + " " + res.model
+	res.judge = "bad=" + b + " " + res.judge
+	res.faultStats = fmt.Sprintf("persistent=%d gone_or_failing=%d transient=%d injected=%d", persistent, len(bad),
+		len(s.rec.faults)-len(bad), s.rec.failed)
+	return res
+}
+
 // runReplay: a corpus line `u:<g>:<tags>;e;E;...` (e = the replica is elected, E = Enable called directly).
 func runReplay(line string) result {
 	s := newSys(false, 0)
@@ -425,9 +494,13 @@ func Run(args []string) int {
 	replay := fs.String("replay", "", "file with one sequential operation list per line (corpus)")
 	wiring := fs.Bool("wiring", false, "real eventHandlerImpl in front of the real LeaderAwareGroupUpdater")
 	maxSteps := fs.Int("maxsteps", 6, "max batches per wiring case")
+	faults := fs.Bool("faults", false, "scripted per-resource API failures (sequential updater stream, or with -wiring)")
 	_ = fs.Parse(args)
 	if *wiring {
-		return runWiringCases(*seed, *n, *maxSteps)
+		return runWiringCases(*seed, *n, *maxSteps, *faults)
+	}
+	if *faults {
+		return runFaultCases(*seed, *n, *maxOps)
 	}
 	r := rng.New(*seed)
 	w := bufio.NewWriter(os.Stdout)
@@ -485,6 +558,48 @@ func Run(args []string) int {
 		}
 		fmt.Fprintln(w, strings.Join(parts, "\t"))
 		w.Flush()
+	}
+	return 0
+}
+
+// runFaultCases runs the fault cases in parallel (they sleep in the Updater's backoff) and prints them in order.
+func runFaultCases(seed uint64, n, maxOps int) int {
+	r := rng.New(seed)
+	out := make([]result, n)
+	sem := make(chan struct{}, 48)
+	var wg sync.WaitGroup
+	for i := 0; i < n; i++ {
+		cr := r.Fork()
+		wg.Add(1)
+		sem <- struct{}{}
+		go func(i int) {
+			defer wg.Done()
+			defer func() { <-sem }()
+			ch := make(chan result, 1)
+			go func() {
+				defer func() {
+					if p := recover(); p != nil {
+						ch <- result{inconclusive: fmt.Sprintf("harness panic: %v", p)}
+					}
+				}()
+				ch <- runFaults(cr, maxOps)
+			}()
+			select {
+			case out[i] = <-ch:
+			case <-time.After(40 * time.Second):
+				out[i] = result{inconclusive: "timeout"}
+			}
+		}(i)
+	}
+	wg.Wait()
+	w := bufio.NewWriter(os.Stdout)
+	defer w.Flush()
+	for _, res := range out {
+		if res.inconclusive != "" {
+			fmt.Fprintf(w, "X %s\n", strings.ReplaceAll(res.inconclusive, "\n", " "))
+			continue
+		}
+		fmt.Fprintln(w, strings.Join([]string{"M " + res.model, "O " + res.obs, "J " + res.judge, "S " + res.faultStats}, "\t"))
 	}
 	return 0
 }
